@@ -644,7 +644,7 @@ func (env *Env) call(n *ast.CallExpr) TV {
 		return TV{T: env.e.convert(v.T, v.Ty, t), Ty: t}
 	}
 	switch fname {
-	case "implies", "forall", "old", "atloop":
+	case "implies", "forall", "old", "atloop", "sameOwed", "sameOwn", "owedNonNeg", "nolocks", "samelocks":
 	default:
 		if _, isDef := env.e.p.cs.Defines[fname]; !isDef {
 			env = env.noSkolem()
@@ -755,9 +755,17 @@ func (env *Env) call(n *ast.CallExpr) TV {
 		return TV{T: fmt.Sprintf("(exists ((%s (_ BitVec 64))) %s)", bv, and(rng, body)), Ty: boolT}
 	case "nolocks": // this invocation holds no mutex
 		env.e.declHeld()
+		if env.skolem {
+			sk := c.Fresh("sk.mu", "MuId")
+			return TV{T: eq(sel(c.Get(env.st, "$held"), sk), "0"), Ty: boolT}
+		}
 		return TV{T: eq(c.Get(env.st, "$held"), "((as const (Array MuId Int)) 0)"), Ty: boolT}
 	case "samelocks": // lock state equals the one at entry
 		env.e.declHeld()
+		if env.skolem {
+			sk := c.Fresh("sk.mu", "MuId")
+			return TV{T: eq(sel(c.Get(env.st, "$held"), sk), sel(c.Get(env.old, "$held"), sk)), Ty: boolT}
+		}
 		return TV{T: eq(c.Get(env.st, "$held"), c.Get(env.old, "$held")), Ty: boolT}
 	case "bound": // bound(x): interface value x was loaded from the file field of a fidRef
 		v := env.eval(n.Args[0])
@@ -774,6 +782,57 @@ func (env *Env) call(n *ast.CallExpr) TV {
 			return TV{T: r, Ty: env.lookupType("*p9.fidRef")}
 		}
 		return TV{T: "0", Ty: env.lookupType("*p9.fidRef")}
+	case "owed": // references to r that this invocation holds and must drop or hand over
+		v := env.eval(n.Args[0])
+		env.e.declOwed()
+		return TV{T: sel(c.Get(env.st, "$owed"), v.T), Ty: ghostIntType}
+	case "noOwed": // the invocation holds no reference
+		env.e.declOwed()
+		return TV{T: eq(c.Get(env.st, "$owed"), "((as const (Array Int Int)) 0)"), Ty: boolT}
+	case "owedNonNeg":
+		env.e.declOwed()
+		if env.skolem {
+			sk := c.Fresh("sk.r", "Int")
+			return TV{T: "(>= " + sel(c.Get(env.st, "$owed"), sk) + " 0)", Ty: boolT}
+		}
+		return TV{T: "(forall ((r Int)) (! (>= (select " + c.Get(env.st, "$owed") + " r) 0) :pattern ((select " + c.Get(env.st, "$owed") + " r))))", Ty: boolT}
+	case "sameOwed": // no net change of held references (optionally except r)
+		env.e.declOwed()
+		cur, old := c.Get(env.st, "$owed"), c.Get(env.old, "$owed")
+		if env.skolem {
+			sk := c.Fresh("sk.r", "Int")
+			body := eq(sel(cur, sk), sel(old, sk))
+			if len(n.Args) == 1 {
+				v := env.noSkolem().eval(n.Args[0])
+				body = implies(not(eq(sk, v.T)), body)
+			}
+			return TV{T: body, Ty: boolT}
+		}
+		if len(n.Args) == 0 {
+			return TV{T: eq(cur, old), Ty: boolT}
+		}
+		v := env.eval(n.Args[0])
+		return TV{T: eq(cur, sto(old, v.T, sel(cur, v.T))), Ty: boolT}
+	case "own": // ownership state of a File: 0 untracked, 1 owned by this invocation, 2 owned by a reference, 3 closed
+		v := env.eval(n.Args[0])
+		env.e.declOwn()
+		return TV{T: sel(c.Get(env.st, "$own"), v.T), Ty: ghostIntType}
+	case "sameOwn": // no File became locally owned (optionally except f)
+		env.e.declOwn()
+		cur, old := c.Get(env.st, "$own"), c.Get(env.old, "$own")
+		c.nfresh++
+		bv := q(fmt.Sprintf("f!%d", c.nfresh))
+		ex := ""
+		if len(n.Args) == 1 {
+			v := env.eval(n.Args[0])
+			ex = "(not (= " + bv + " " + v.T + "))"
+		}
+		body := implies(and(eq(sel(cur, bv), "1"), ex), eq(sel(old, bv), "1"))
+		if env.skolem {
+			sk := c.Fresh("sk.f", "Iface")
+			return TV{T: strings.ReplaceAll(body, bv, sk), Ty: boolT}
+		}
+		return TV{T: fmt.Sprintf("(forall ((%s Iface)) %s)", bv, body), Ty: boolT}
 	case "arr": // backing array identity of a slice (mathint)
 		v := env.eval(n.Args[0])
 		return TV{T: "(s.arr " + v.T + ")", Ty: ghostIntType}
